@@ -172,3 +172,54 @@ ANCHORS = [('swh/model/git_objects.py', 'release_git_object'),
            ('swh/model/git_objects.py', 'format_author_data'),
            ('swh/model/git_objects.py', 'format_git_object_from_headers'),
            ('swh/model/model.py', 'Release.check_author')]
+
+
+def pre_checks(ctx):
+    """validation of the spec-level definition against independent implementations of git's tag format (not a
+    theorem): dulwich parses the library's payload into the same fields and re-serialises it byte for byte;
+    thorough tier: `git hash-object -t tag` / `git cat-file` agree on id and payload"""
+    import random
+    import subprocess
+    import tempfile
+    from swh.model import git_objects
+    out = []
+    try:
+        from dulwich.objects import Tag
+    except Exception:
+        return out
+    rng = random.Random(ctx.seed + 404)
+    n = 60 if ctx.tier == "quick" else 3000
+    gitdir = None
+    if ctx.tier == "thorough":
+        gitdir = tempfile.mkdtemp(prefix="c04git")
+        subprocess.run(["git", "init", "-q", "--bare", gitdir], check=True)
+    try:
+        for _ in range(n):
+            h, m = rng.randrange(0, 14), rng.choice([0, 30])
+            c = {"name": rng.choice([b"v1.0", b"release-2", b"x"]).hex(), "message": rng.choice([b"", b"msg\n", b"a\n\nb"]).hex(),
+                 "target": bytes(rng.randrange(256) for _ in range(20)).hex(), "ttype": rng.choice(["content", "directory", "revision", "release"]),
+                 "author": b"T Agger <t@example.org>".hex(),
+                 "date": [rng.randrange(0, 2 ** 33), 0, (rng.choice(["+", "-"]) + "%02d%02d" % (h, m)).encode().hex()], "synthetic": False}
+            r = _build(c)
+            man = git_objects.release_git_object(r)
+            payload = man[man.index(b"\x00") + 1:]
+            dt = Tag.from_string(payload)
+            got = (dt.object[1], dt.object[0].type_name, dt.name, dt.tagger, dt.tag_time, dt.message)
+            want = (c["target"].encode(), GITWORD[c["ttype"]], bytes.fromhex(c["name"]), bytes.fromhex(c["author"]), c["date"][0],
+                    bytes.fromhex(c["message"]))
+            if got != want or dt.as_raw_string() != payload or dt.id.decode() != r.id.hex():
+                out.append(("spec-validation:dulwich-tag", "dulwich parses/re-serialises the payload differently: %r vs %r" % (got, want)))
+                break
+            if gitdir:
+                p = subprocess.run(["git", "--git-dir", gitdir, "hash-object", "-t", "tag", "-w", "--stdin", "--literally"],
+                                   input=payload, stdout=subprocess.PIPE, stderr=subprocess.PIPE)
+                if p.returncode == 0:
+                    gid = p.stdout.decode().strip()
+                    back = subprocess.run(["git", "--git-dir", gitdir, "cat-file", "tag", gid], stdout=subprocess.PIPE).stdout
+                    if gid != r.id.hex() or back != payload:
+                        out.append(("spec-validation:git-tag", "git hash-object/cat-file disagree for %r" % c))
+                        break
+    finally:
+        if gitdir:
+            subprocess.run(["rm", "-rf", gitdir])
+    return out
